@@ -349,7 +349,8 @@ calcvla(struct func *f, struct type *t)
 	assert(t->kind == TYPEARRAY);
 	if (!t->u.array.size) {
 		assert(t->base->size || t->base->kind == TYPEARRAY || !(t->base->prop & PROPVM));
-		assert(t->u.array.length);
+		if (!t->u.array.length)
+			error(&tok.loc, "array of unspecified size '[*]' used outside of a function prototype");
 		length = convert(f, &typeulong, t->u.array.length->type, funcexpr(f, t->u.array.length));
 		basesize = t->base->size || !(t->base->prop & PROPVM) ? mkintconst(t->base->size) : t->base->u.array.size;
 		t->u.array.size = funcinst(f, IMUL, 'l', length, basesize);
